@@ -500,7 +500,7 @@ def run_with(cfg, ops, seed, inject_at=None, bad=None):
                 refusal = do_step(s, bad)
             img, oc = s.write()
             mid = img.getvalue() if oc.ok else ('write-fails', oc.sig())
-        out = s.step(op)
+        s, out = driver.advance(s, op)
         if inject_at is not None and i >= inject_at:
             sigs.append(out.sig())
     if inject_at == len(ops):
@@ -616,10 +616,15 @@ def run_case(i, seed, tier):
     h.sess.close()
     # injection point and instantiation against the model state at that point
     inject_at = rng.randint(max(0, len(ops) - 6), len(ops)) if which in ('32nd', 'depth', 'rr-too-long-reloc', 'iso-dup-reloc') else rng.randint(0, len(ops))
+    if api != 'state' and inject_at >= 2 and rng.random() < 0.25:
+        # the refusal hits an object that opened a mastered image (parsed state)
+        ops.insert(rng.randint(1, inject_at), {'op': 'reopen'})
+        inject_at += 1
+        counters['refusals_on_reopened'] = 1
     env.reset(cs)
     s = driver.Session(cfg, cs).new()
     for op in ops[:inject_at]:
-        s.step(op)
+        s, _o = driver.advance(s, op)
     g2 = Gen(cs + 17)
     g2.uniq = h.gen.uniq + 500
     g2.next_cid = h.gen.next_cid + 500
